@@ -277,6 +277,19 @@ func plasmaReplay(run *core.Run, b *plasmaBehaviour, bi int, outcomes map[string
 		blk.Hash = blk.ComputeHash()
 		blk.PublicKey = acct.Public
 		blk.Signature = acct.Sign(blk.Hash.Bytes())
+		// the derived fields travel with the block but are not covered by its hash: whatever they say, the verdict is the same
+		derived := []string{"asComputed", "baseOne", "baseHuge", "totalHuge", "totalZero"}[(si+bi+int(run.Seed))%5]
+		switch derived {
+		case "baseOne":
+			blk.BasePlasma = 1
+		case "baseHuge":
+			blk.BasePlasma = 1 << 40
+		case "totalHuge":
+			blk.TotalPlasma = 1 << 40
+		case "totalZero":
+			blk.TotalPlasma = 0
+		}
+		outcomes["derived-fields:"+derived]++
 		wire, _ := node.WireBlock(blk)
 		err := p.Offer(wire)
 		got := "accepted"
